@@ -909,3 +909,185 @@ def local_source(rng, class_params=False):
     emit("}")
     emit("int f_; }; void use%d() { %s().%s(); } }" % (uid[0], k, m))
     return "\n".join(lines) + "\n", linemap
+
+
+# ---------------------------------------------------------------------------------------------
+# special symbols that real programs contain besides plain function names:
+#  - thunks of class hierarchies with virtual bases and covariant return types (`_ZThn16_…`, `_ZTv0_n24_…`,
+#    `_ZTch0_v0_n24_…`, `_ZTcv0_n32_v0_n24_…`): the demangler prints the name of the function the thunk adjusts to
+#    (dd_special_name: call offsets are skipped, then the encoding; unit test `_ZThn8_N13FtraceServiceD0Ev`)
+#  - functions, classes and namespaces whose identifiers look like hexadecimal words (h + hex digits is what the
+#    hash of a legacy Rust symbol looks like; only a 17 character one is a hash)
+#  - the static initialiser of a translation unit, which g++ names `_GLOBAL__sub_I_` + the mangled name of the
+#    first global definition of the unit (the demangler keeps the prefix and demangles the rest)
+HEXWORDS = ["head", "hadd", "h264", "hbeef", "dead", "hc0de", "h0", "hab12", "hface", "hdeed", "beef", "hA1", "hfeed5",
+            "hb", "h", "hFF", "h0123456789abcde", "h0123456789abcdef0", "feed", "hdecade", "ha", "h1", "cafe", "he"]
+VNAMES = ["vf", "clone", "step", "head", "hadd", "hbeef", "run", "dead"]
+
+
+def hexword(rng, used):
+    for _ in range(50):
+        w = rng.choice(HEXWORDS)
+        if rng.random() < 0.3:
+            w += rng.choice("0123456789abcdef")
+        if w not in used and len(w) != 17:
+            used.add(w)
+            return w
+    w = "hx%d" % len(used)
+    used.add(w)
+    return w
+
+
+def thunk_source(rng):
+    """class hierarchies with virtual bases, covariant return types and hex-word identifiers; every function
+    definition on its own line.  returns (source text, {line: (expected, kind)})"""
+    lines = []
+    linemap = {}
+    uid = [0]
+
+    def fresh(p):
+        uid[0] += 1
+        return "%s%d" % (p, uid[0])
+
+    def emit(t, exp=None, kind=None):
+        lines.append(t)
+        if exp is not None:
+            linemap[len(lines)] = (exp, kind)
+
+    uses = []
+    for h in range(rng.randint(2, 4)):
+        path = []
+        for _ in range(rng.choice([0, 1, 1, 2])):
+            n = fresh(rng.choice(["vn", "space"])) if rng.random() < 0.6 else hexword(rng, set(path)) + "_%d" % h
+            if not n[0].isalpha():
+                n = "n" + n
+            path.append(n)
+            emit("namespace %s {" % n)
+        q = "".join(p + "::" for p in path)
+        vnames = rng.sample(VNAMES, rng.randint(1, 3))
+        cov = h == 0 or rng.random() < 0.7
+        base = fresh(rng.choice(["VB", "Base", "hb"]))
+        mids = [fresh(rng.choice(["L", "R", "Mid", "hc"])) for _ in range(rng.randint(1, 3))]
+        top = fresh(rng.choice(["D", "Top", "hd"]))
+
+        def cls(name, bases):
+            inh = (" : " + ", ".join(bases)) if bases else ""
+            emit("struct %s%s {" % (name, inh))
+            if rng.random() < 0.5:
+                emit("long pad_%s[%d];" % (name, rng.randint(1, 4)))
+            emit("%s() { }" % name, q + name + "::" + name, "thunk:ctor")
+            emit("virtual ~%s() { }" % name, q + name + "::~" + name, "thunk:dtor")
+            if cov:
+                emit("virtual %s *self_() { return this; }" % name, q + name + "::self_", "thunk:covariant")
+            for v in vnames:
+                emit("virtual void %s(int) { }" % v, q + name + "::" + v, "thunk:virtual")
+            emit("int fld_%s;" % name)
+            emit("};")
+
+        cls(base, [])
+        for m in mids:
+            # a second, non-virtual base gives non-virtual thunks (h offsets) beside the virtual ones (v offsets)
+            cls(m, [rng.choice(["virtual ", "virtual ", "public virtual "]) + base])
+        cls(top, mids if len(mids) > 1 or rng.random() < 0.5 else ["virtual " + base, mids[0]])
+        for _ in path:
+            emit("}")
+        uses.append("%s%s" % (q, top))
+    # hex-word identifiers at every position of a qualified name
+    used = set()
+    for h in range(rng.randint(2, 3)):
+        ns = hexword(rng, used)
+        k = hexword(rng, used)
+        emit("namespace %s {" % ns)
+        for _ in range(rng.randint(1, 3)):
+            f = hexword(rng, used)
+            emit("%svoid %s(%s) { }" % (USED, f, rng.choice(["", "int", "char *", "long, bool"])), "%s::%s" % (ns, f), "hexword:function")
+        emit("struct %s {" % k)
+        emit("%s%s() { }" % (USED, k), "%s::%s::%s" % (ns, k, k), "hexword:ctor")
+        emit("%s~%s() { }" % (USED, k), "%s::%s::~%s" % (ns, k, k), "hexword:dtor")
+        for _ in range(rng.randint(2, 5)):
+            f = hexword(rng, used)
+            st = "static " if rng.random() < 0.3 else ""
+            cq = " const" if not st and rng.random() < 0.3 else ""
+            emit("%s%sint %s(%s)%s { return 0; }" % (USED, st, f, rng.choice(["", "int", "double", "char, char"]), cq),
+                 "%s::%s::%s" % (ns, k, f), "hexword:method")
+        inner = hexword(rng, used)
+        emit("struct %s {" % inner)
+        f = hexword(rng, used)
+        emit("%svoid %s() { }" % (USED, f), "%s::%s::%s::%s" % (ns, k, inner, f), "hexword:method")
+        emit("int f_; };")
+        emit("int f_; };")
+        emit("}")
+    f = hexword(rng, used)
+    emit("%svoid %s(int) { }" % (USED, f), f, "hexword:function")      # global scope: `_Z4headi`
+    emit("void use_thunks() {")
+    for t in uses:
+        emit(" { %s o; }" % t)
+    emit("}")
+    return "\n".join(lines) + "\n", linemap
+
+
+def static_init_sources(rng, n):
+    """n small translation units with a dynamically initialised global object; g++ names the initialiser
+    `_GLOBAL__sub_I_<mangled name of the first global definition>`.
+    returns [(source, {line: (expected, kind)}, expected name of the first definition or None, kind of first)]"""
+    shapes = ["ctor", "dtor", "ctor", "dtor", "ns-ctor", "ns-dtor", "function", "ns-function", "method", "operator",
+              "variable", "ns-variable", "hexword-method"]
+    rng.shuffle(shapes)
+    shapes.insert(0, rng.choice(["ctor", "dtor"]))      # every run has a constructor/destructor of a global-namespace class
+    out = []
+    for i in range(n):
+        shape = shapes[i % len(shapes)]
+        lines = []
+        linemap = {}
+
+        def emit(t, exp=None, kind=None):
+            lines.append(t)
+            if exp is not None:
+                linemap[len(lines)] = (exp, kind)
+
+        k = rng.choice(["K", "Widget", "Cls", "hd", "Registry"]) + str(rng.randrange(100))
+        ns = rng.choice(["ns", "space", "app"]) + str(rng.randrange(100))
+        inns = shape.startswith("ns-")
+        q = ns + "::" if inns else ""
+        if inns:
+            emit("namespace %s {" % ns)
+        m = rng.choice(HEXWORDS[:8]) if shape == "hexword-method" else "meth%d" % rng.randrange(100)
+        emit("struct %s {" % k)
+        emit("%s(%s);" % (k, rng.choice(["", "int", "const char *"])))
+        ctor_params = lines[-1][len(k) + 1:-2]
+        emit("~%s();" % k)
+        emit("int %s(int);" % m)
+        emit("int operator+(int);")
+        emit("int v_;")
+        emit("};")
+        first = None
+        defs = {
+            "ctor": ("%s::%s(%s) { }" % (k, k, ctor_params), q + k + "::" + k),
+            "dtor": ("%s::~%s() { }" % (k, k), q + k + "::~" + k),
+            "method": ("int %s::%s(int) { return 0; }" % (k, m), q + k + "::" + m),
+            "operator": ("int %s::operator+(int) { return 0; }" % k, q + k + "::operator+"),
+        }
+        order = {"ctor": ["ctor", "dtor", "method", "operator"], "dtor": ["dtor", "ctor", "method", "operator"],
+                 "method": ["method", "ctor", "dtor", "operator"], "operator": ["operator", "dtor", "ctor", "method"]}
+        base = shape[3:] if inns else shape
+        base = "method" if base == "hexword-method" else base
+        if base == "function":
+            f = "func%d" % rng.randrange(100)
+            emit("int %s() { return 0; }" % f, q + f, "sinit:function")
+            first = q + f
+            seq = order["ctor"]
+        elif base == "variable":
+            v = "gvar%d" % rng.randrange(100)
+            emit("int %s = 3;" % v)
+            first = q + v if inns else None       # a variable at global scope has a plain name: nothing to demangle
+            seq = order["ctor"]
+        else:
+            seq = order[base]
+            first = defs[base][1]
+        for d in seq:
+            emit(defs[d][0], defs[d][1], "sinit:" + d)
+        emit("%s g_obj%d%s;" % (k, i, "(1)" if ctor_params == "int" else '("x")' if ctor_params else ""))
+        if inns:
+            emit("}")
+        out.append(("\n".join(lines) + "\n", linemap, first, shape))
+    return out
